@@ -218,6 +218,12 @@ def check(ctx, env, c):
         rej = lib.rand_requested() > 32
         ctx.count(c, rej, "%s:%s%s" % (op, sk, ":rejected" if rej else ""))
         expect(got < R, op + "/range", lambda: "stream=%s got=%x" % (c["stream"].hex(), got))
+        # a sampler is a function of the bytes it is given: the same stream again gives the same scalar and consumes as many bytes
+        req = lib.rand_requested()
+        lib.set_random(c["stream"], c["seed"])
+        lib.O.arm(32)
+        f(lib.O.ptr, lib.rand_fn)
+        expect(conv.ib(lib.O.read(32)) == got and lib.rand_requested() == req, op + "/depends-on-earlier-calls", lambda: "stream=%s: first call %x (%d bytes), same stream again %x (%d bytes)" % (c["stream"].hex(), got, req, conv.ib(lib.O.read(32)), lib.rand_requested()))
         return
     if op in ("fq_random", "fq2_random"):
         deg = 1 if op == "fq_random" else 2
@@ -228,6 +234,11 @@ def check(ctx, env, c):
         rej = lib.rand_requested() > 48 * deg
         ctx.count(c, rej, "%s:%s%s" % (op, sk, ":rejected" if rej else ""))
         expect(all(w < Q for w in ws), op + "/range", lambda: "stream=%s got=%r" % (c["stream"].hex(), [hex(w) for w in ws]))
+        req = lib.rand_requested()
+        lib.set_random(c["stream"], c["seed"])
+        lib.O.arm(48 * deg)
+        lib.fn("vf_tower_random", None)(deg, lib.O.ptr)
+        expect(conv.raws(lib.O.read(48 * deg)) == ws and lib.rand_requested() == req, op + "/depends-on-earlier-calls", lambda: "stream=%s: the same stream again gives another element" % c["stream"].hex())
         return
     if op in ("g1_random", "g2_random", "wk_g1", "wk_g2"):
         g = 1 if op in ("g1_random", "wk_g1") else 2
@@ -247,6 +258,11 @@ def check(ctx, env, c):
         expect(got is not None, op + "/identity", "sampled group element is the identity")
         expect(C.on_curve(got, K), op + "/offcurve", lambda: "stream=%s" % c["stream"].hex())
         expect(C.mul(got, R, K) is None, op + "/subgroup", lambda: "stream=%s: [r]P != O" % c["stream"].hex())
+        req = lib.rand_requested()
+        lib.set_random(c["stream"], c["seed"])
+        lib.O.fill(0xCD, psz)
+        f(lib.O.ptr, lib.rand_fn)
+        expect(c05.b_proj(g, lib.O.read(psz)) == got and lib.rand_requested() == req, op + "/depends-on-earlier-calls", lambda: "stream=%s: the same stream again gives another point" % c["stream"].hex())
         return
     if op in ("px_random", "wk_zpstar_px"):
         ABS_X = -F.X
@@ -259,6 +275,11 @@ def check(ctx, env, c):
         expect(y < R, op + "/range", lambda: "stream=%s y=%x" % (c["stream"].hex(), y))
         expect(all(d_ < ABS_X for d_ in cs), op + "/digit-range", lambda: "stream=%s digits=%r" % (c["stream"].hex(), cs))
         expect(sum(d_ * ABS_X**i for i, d_ in enumerate(cs)) == y, op + "/consistency", lambda: "digits=%r do not recombine to y=%x" % (cs, y))
+        req = lib.rand_requested()
+        lib.set_random(c["stream"], c["seed"])
+        lib.B.fill(0xCD, 32)
+        lib.fn("vf_px_random" if op == "px_random" else "vf_wk_random_zpstar_px", None)(lib.O.ptr, lib.B.ptr)
+        expect(conv.ib(lib.B.read(32)) == y and lib.rand_requested() == req, op + "/depends-on-earlier-calls", lambda: "stream=%s: the same stream again gives another exponent" % c["stream"].hex())
         return
     # wk_gt
     f = lib.dll.embedded_pairing_wkdibe_random_gt
